@@ -10,12 +10,12 @@
    equation, is_parameter = written in braces, is_error = written in angle brackets, is_exogenous = a right-hand
    variable no equation assigns, script_lags / script_leads = deepest lag / furthest lead (0 if none; a string
    index counts as 0).
-   Hypotheses: wf_program (terms are as process_term_match builds them: index None exactly for FUNCTION and KEYWORD
-   terms) and fn_guard (no call `x(` after a non-function mention of x inside one statement — finding #19, where the
-   unguarded statements are refuted: exogenous_otherwise_refuted, conflict_rejected_refuted). *)
+   Hypothesis: wf_program (terms are as process_term_match builds them: index None exactly for FUNCTION and KEYWORD
+   terms; proved for every script, C03_every_accepted_script).  Finding #19 is repaired (b45daa1): the former guard
+   fn_guard is gone from every statement, and a name both called as a function and used otherwise is rejected. *)
 From Coq Require Import String Ascii List Bool ZArith.
 Import ListNotations.
-Require Import PyBase Symbols Merge ParseEq ParseModel Classify ClassifyFacts ClassifyProgram ClassifyClass ClassifyMain ClassifyRange ClassifyScript ClassifyEndToEnd ClassifyGuardExact ClassifyExamples.
+Require Import PyBase Symbols Merge ParseEq ParseModel Classify ClassifyFacts ClassifyProgram ClassifyClass ClassifyMain ClassifyRange ClassifyScript ClassifyEndToEnd ClassifyExamples.
 Open Scope string_scope.
 
 (* Every script: whatever the syntax-check oracle `chk`, a script that the parser model accepts IS a program (its
@@ -29,7 +29,7 @@ Print Assumptions C03_every_accepted_script.
 
 (* The four classes are the names of the script, each list in order of first appearance, selected by:
    assigned by some equation / right-hand variable never assigned / in braces / in angle brackets. *)
-Theorem C03_name_lists : forall p, wf_program p = true -> fn_guard p = true ->
+Theorem C03_name_lists : forall p, wf_program p = true ->
   forall syms o c, program_symbols p = Ret syms -> class_of syms o = Ret c ->
     c_endogenous c = map Some (filter (is_endogenous p) (script_names p)) /\
     c_exogenous c = map Some (filter (is_exogenous p) (script_names p)) /\
@@ -39,7 +39,7 @@ Proof. exact name_lists. Qed.
 Print Assumptions C03_name_lists.
 
 (* endogenous iff some equation assigns it, parameter iff in braces, error iff in angle brackets, exogenous otherwise *)
-Theorem C03_membership : forall p, wf_program p = true -> fn_guard p = true ->
+Theorem C03_membership : forall p, wf_program p = true ->
   forall syms o c x, program_symbols p = Ret syms -> class_of syms o = Ret c ->
     (In (Some x) (c_endogenous c) <-> is_endogenous p x = true) /\
     (In (Some x) (c_parameters c) <-> is_parameter p x = true) /\
@@ -50,7 +50,7 @@ Print Assumptions C03_membership.
 
 (* NAMES = ENDOGENOUS + EXOGENOUS + PARAMETERS + ERRORS holds each name exactly once, and holds exactly the names of the
    script that are in one of the four classes *)
-Theorem C03_names_partition : forall p, wf_program p = true -> fn_guard p = true ->
+Theorem C03_names_partition : forall p, wf_program p = true ->
   forall syms o c, program_symbols p = Ret syms -> class_of syms o = Ret c ->
     NoDup (c_names c) /\
     (forall x, In (Some x) (c_names c) <->
@@ -60,7 +60,7 @@ Print Assumptions C03_names_partition.
 
 (* the symbol table itself: parse_model returns one symbol per name of the script, in order of first appearance,
    followed by the verbatim blocks in order *)
-Theorem C03_symbol_order : forall p, wf_program p = true -> fn_guard p = true ->
+Theorem C03_symbol_order : forall p, wf_program p = true ->
   forall syms, program_symbols p = Ret syms ->
     exists d, syms = (dict_values d ++ verbatim_blocks p)%list /\ dict_keys d = script_names p /\
               forall k v, In (k, v) d -> sname v = Some k.
@@ -69,7 +69,7 @@ Print Assumptions C03_symbol_order.
 
 (* LAGS / LEADS: the deepest lag and the furthest lead of the script; explicit lags= / leads= replace them,
    min_lags= / min_leads= only raise them *)
-Theorem C03_lags_leads : forall p, wf_program p = true -> fn_guard p = true ->
+Theorem C03_lags_leads : forall p, wf_program p = true ->
   forall syms o c, program_symbols p = Ret syms -> class_of syms o = Ret c ->
     (forall z, o_lags o = Some z -> c_lags c = z) /\
     (o_lags o = None -> exists m, o_min_lags o = Some m /\ c_lags c = Z.max (script_lags p) m) /\
@@ -79,7 +79,7 @@ Proof. exact lags_leads. Qed.
 Print Assumptions C03_lags_leads.
 
 (* every accepted program builds, whatever the options, as long as each length has an explicit value or a minimum *)
-Theorem C03_class_total : forall p, wf_program p = true -> fn_guard p = true ->
+Theorem C03_class_total : forall p, wf_program p = true ->
   forall syms o, program_symbols p = Ret syms ->
     (o_lags o <> None \/ o_min_lags o <> None) -> (o_leads o <> None \/ o_min_leads o <> None) ->
     exists c, class_of syms o = Ret c.
@@ -88,7 +88,7 @@ Print Assumptions C03_class_total.
 
 (* a rejected program: a malformed statement (ParserError), a name used in two classes (SymbolError) or an endogenous
    variable with two different equation texts (ParserError) — with the offending mentions *)
-Theorem C03_rejection_classes : forall p, wf_program p = true -> fn_guard p = true ->
+Theorem C03_rejection_classes : forall p, wf_program p = true ->
   forall x, program_symbols p = Raise x ->
     (x = ParserError /\ existsb stmt_rejected p = true) \/
     (x = SymbolError /\ exists a b, In a (amentions p) /\ In b (amentions p) /\ aname a = aname b /\ clash (atype a) (atype b)) \/
@@ -97,34 +97,39 @@ Proof. exact rejection_classes. Qed.
 Print Assumptions C03_rejection_classes.
 
 (* a name used both as variable and as parameter / error (or as parameter and error) is rejected *)
-Theorem C03_conflict_rejected : forall p, wf_program p = true -> fn_guard p = true ->
+Theorem C03_conflict_rejected : forall p, wf_program p = true ->
   forall a b, In a (amentions p) -> In b (amentions p) -> aname a = aname b -> clash (atype a) (atype b) ->
     exists x, program_symbols p = Raise x /\ (x = SymbolError \/ x = ParserError).
 Proof. exact conflict_rejected. Qed.
 Print Assumptions C03_conflict_rejected.
 
 (* an endogenous variable defined by two different equations is rejected *)
-Theorem C03_double_definition_rejected : forall p, wf_program p = true -> fn_guard p = true ->
+Theorem C03_double_definition_rejected : forall p, wf_program p = true ->
   forall a b, In a (amentions p) -> In b (amentions p) -> aname a = aname b -> two_texts a b ->
     exists x, program_symbols p = Raise x /\ (x = SymbolError \/ x = ParserError).
 Proof. exact double_definition_rejected. Qed.
 Print Assumptions C03_double_definition_rejected.
 
-(* finding #19: without the guard, a variable that is also called as a function is in none of the lists … *)
-Theorem C03_exogenous_otherwise_refuted :
-  exists p syms c, wf_program p = true /\ program_symbols p = Ret syms /\ class_of syms default_opts = Ret c /\
-                   is_exogenous p "exp" = true /\ mem_name "exp" (c_names c) = false /\ fn_guard p = false.
-Proof. exact exogenous_otherwise_refuted. Qed.
-Print Assumptions C03_exogenous_otherwise_refuted.
+(* finding #19 repaired (b45daa1): a name called as a function and also used as a variable, parameter or error — inside one
+   equation in either order, or in different equations — is rejected *)
+Theorem C03_function_clash_rejected : forall p, wf_program p = true ->
+  forall a b, In a (amentions p) -> In b (amentions p) -> aname a = aname b -> atype a = TFunction -> atype b <> TFunction ->
+    exists x, program_symbols p = Raise x /\ (x = SymbolError \/ x = ParserError).
+Proof. exact function_clash_rejected. Qed.
+Print Assumptions C03_function_clash_rejected.
+(* the former witnesses: Y = exp + exp(X), Y = exp(X) + exp, Y = {a} + a(X), and Y = a + a(1) ; Z = {a} + a(1) *)
+Theorem C03_function_and_variable_rejected :
+  program_symbols p19 = Raise SymbolError /\
+  program_symbols [SEq [tv "Y" 0] [tf "exp"; tv "X" 0; tv "exp" 0] "e" "c"] = Raise SymbolError /\
+  program_symbols [SEq [tv "Y" 0] [tp "a" 0; tf "a"; tv "X" 0] "e" "c"] = Raise SymbolError /\
+  program_symbols [SEq [tf "Y"; tv "Y" 0] [tv "X" 0] "e" "c"] = Raise SymbolError.
+Proof. exact function_and_variable_rejected. Qed.
+Print Assumptions C03_function_and_variable_rejected.
+Theorem C03_masked_conflict_rejected : program_symbols pC = Raise SymbolError.
+Proof. exact masked_conflict_rejected. Qed.
+Print Assumptions C03_masked_conflict_rejected.
 
-(* … and a name used as variable in one equation and as parameter in another can be accepted *)
-Theorem C03_conflict_rejected_refuted :
-  exists p a b syms, wf_program p = true /\ In a (amentions p) /\ In b (amentions p) /\ aname a = aname b /\
-                     clash (atype a) (atype b) /\ program_symbols p = Ret syms.
-Proof. exact conflict_rejected_refuted. Qed.
-Print Assumptions C03_conflict_rejected_refuted.
-
-(* the default range on a span of n distinct labels: the periods t with t - LAGS >= 0 and t + LEADS <= n - 1, once each *)
+(* the default range on a span of n labels (positions, 7cd6323): the periods t with t - LAGS >= 0 and t + LEADS <= n - 1, once each *)
 Theorem C03_default_range_periods : forall n lags leads l,
   (0 <= lags)%Z -> (0 <= leads)%Z -> (lags + leads + 1 <= Z.of_nat n)%Z ->
   default_range n lags leads = Ret l ->
@@ -157,12 +162,12 @@ Print Assumptions C03_default_range_short.
 
 (* end to end, default options: the class built from an accepted program has LAGS / LEADS = the script's lengths, and its
    default range on a long enough span is, once each, exactly the periods at which every written offset stays inside the span *)
-Theorem C03_default_lengths : forall p syms c, wf_program p = true -> fn_guard p = true ->
+Theorem C03_default_lengths : forall p syms c, wf_program p = true ->
   program_symbols p = Ret syms -> class_of syms default_opts = Ret c ->
   c_lags c = script_lags p /\ c_leads c = script_leads p.
 Proof. exact default_lengths. Qed.
 Print Assumptions C03_default_lengths.
-Theorem C03_default_range_of_program : forall p syms c n l, wf_program p = true -> fn_guard p = true ->
+Theorem C03_default_range_of_program : forall p syms c n l, wf_program p = true ->
   program_symbols p = Ret syms -> class_of syms default_opts = Ret c ->
   (script_lags p + script_leads p + 1 <= Z.of_nat n)%Z ->
   default_range n (c_lags c) (c_leads c) = Ret l ->
@@ -179,26 +184,25 @@ Proof. exact longer_lengths_stay_feasible. Qed.
 Print Assumptions C03_longer_lengths_stay_feasible.
 
 (* what the options must not change: the four lists and NAMES do not depend on lags / leads / min_lags / min_leads … *)
-Theorem C03_lists_independent_of_options : forall p syms o1 o2 c1 c2, wf_program p = true -> fn_guard p = true ->
+Theorem C03_lists_independent_of_options : forall p syms o1 o2 c1 c2, wf_program p = true ->
   program_symbols p = Ret syms -> class_of syms o1 = Ret c1 -> class_of syms o2 = Ret c2 ->
   c_endogenous c1 = c_endogenous c2 /\ c_exogenous c1 = c_exogenous c2 /\ c_parameters c1 = c_parameters c2 /\
   c_errors c1 = c_errors c2 /\ c_names c1 = c_names c2.
 Proof. exact lists_independent_of_options. Qed.
 Print Assumptions C03_lists_independent_of_options.
 (* … and the lags options do not touch LEADS *)
-Theorem C03_lags_options_do_not_touch_leads : forall p syms o c lg mlg, wf_program p = true -> fn_guard p = true ->
+Theorem C03_lags_options_do_not_touch_leads : forall p syms o c lg mlg, wf_program p = true ->
   program_symbols p = Ret syms -> class_of syms o = Ret c ->
   forall c', class_of syms (mkOpts lg (o_leads o) mlg (o_min_leads o)) = Ret c' -> c_leads c' = c_leads c.
 Proof. exact lags_options_do_not_touch_leads. Qed.
 Print Assumptions C03_lags_options_do_not_touch_leads.
 
 (* everything composed, from the text: for every script the parser model accepts, with p its statements after lexing and
-   under the guard of finding #19 — no name in two classes, no endogenous variable with two texts; and for every option
+   — no name in two classes, no endogenous variable with two texts; and for every option
    set for which the class is built: the four lists, NAMES without duplicates, LAGS and LEADS *)
 Theorem C03_script_end_to_end : forall chk check_syntax model syms, parse_model_M chk check_syntax model = POk syms ->
   exists p, script_program model = POk p /\ wf_program p = true /\ program_symbols p = Ret syms /\
-    (fn_guard p = true ->
-       (forall a b, In a (amentions p) -> In b (amentions p) -> aname a = aname b -> ~ clash (atype a) (atype b) /\ ~ two_texts a b) /\
+    (  (forall a b, In a (amentions p) -> In b (amentions p) -> aname a = aname b -> ~ clash (atype a) (atype b) /\ ~ two_texts a b) /\
        forall o c, class_of syms o = Ret c ->
          c_endogenous c = map Some (filter (is_endogenous p) (script_names p)) /\
          c_exogenous c = map Some (filter (is_exogenous p) (script_names p)) /\
@@ -214,35 +218,23 @@ Print Assumptions C03_script_end_to_end.
 
 (* the exception class: a name in two classes (every statement well formed, no double definition) -> SymbolError;
    an endogenous variable with two different equation texts (no name in two classes) -> ParserError *)
-Theorem C03_conflict_gives_SymbolError : forall p a b, wf_program p = true -> fn_guard p = true ->
+Theorem C03_conflict_gives_SymbolError : forall p a b, wf_program p = true ->
   existsb stmt_rejected p = false ->
   (forall a' b', In a' (amentions p) -> In b' (amentions p) -> aname a' = aname b' -> ~ two_texts a' b') ->
   In a (amentions p) -> In b (amentions p) -> aname a = aname b -> clash (atype a) (atype b) ->
   program_symbols p = Raise SymbolError.
 Proof. exact conflict_gives_SymbolError. Qed.
 Print Assumptions C03_conflict_gives_SymbolError.
-Theorem C03_double_definition_gives_ParserError : forall p a b, wf_program p = true -> fn_guard p = true ->
+Theorem C03_double_definition_gives_ParserError : forall p a b, wf_program p = true ->
   (forall a' b', In a' (amentions p) -> In b' (amentions p) -> aname a' = aname b' -> ~ clash (atype a') (atype b')) ->
   In a (amentions p) -> In b (amentions p) -> aname a = aname b -> two_texts a b ->
   program_symbols p = Raise ParserError.
 Proof. exact double_definition_gives_ParserError. Qed.
 Print Assumptions C03_double_definition_gives_ParserError.
 
-(* the guard of finding #19 is EXACT: it is a decidable (computable) predicate; when it holds every classified name of the
-   script is in NAMES; when it fails on an accepted program, some name mentioned otherwise than as a function is in none of
-   the four lists (every symbol of that name is a FUNCTION symbol) *)
-Theorem C03_guard_necessary : forall p syms, program_symbols p = Ret syms -> fn_guard p = false ->
-  exists x, existsb (nonfn_named x) (mentions p) = true /\ only_fn syms x /\
-            forall o c, class_of syms o = Ret c -> ~ In (Some x) (c_names c).
-Proof. exact guard_necessary. Qed.
-Print Assumptions C03_guard_necessary.
-Theorem C03_guard_exact : forall p syms o c, wf_program p = true -> program_symbols p = Ret syms -> class_of syms o = Ret c ->
-  (fn_guard p = true -> forall x, In x (script_names p) -> classified p x = true -> In (Some x) (c_names c)) /\
-  (fn_guard p = false -> exists x, existsb (nonfn_named x) (mentions p) = true /\ ~ In (Some x) (c_names c)).
-Proof. exact guard_exact. Qed.
-Print Assumptions C03_guard_exact.
-(* on script text: script_guard computes it, and is defined for every accepted script *)
-Theorem C03_script_guard_defined : forall chk check_syntax model syms,
-  parse_model_M chk check_syntax model = POk syms -> exists b, script_guard model = Some b.
-Proof. exact script_guard_defined. Qed.
-Print Assumptions C03_script_guard_defined.
+(* in an accepted program a name that is called as a function is used as nothing else: it is in none of the four classes *)
+Theorem C03_function_names_are_not_variables : forall p syms x, wf_program p = true -> program_symbols p = Ret syms ->
+  mentioned_as TFunction x (mentions p) = true ->
+  is_endogenous p x = false /\ is_exogenous p x = false /\ is_parameter p x = false /\ is_error p x = false.
+Proof. exact function_names_are_not_variables. Qed.
+Print Assumptions C03_function_names_are_not_variables.
